@@ -501,7 +501,9 @@ pub fn run(args: &Args) -> i32 {
         cfgs.push(Cfg::Flip("WithRate/Vec<bool>", Some(0.3), len));
         cfgs.push(Cfg::Flip("WithRate/Bitstring", Some(0.3), len));
         cfgs.push(Cfg::Flip("WithOneOverLength/Bitstring", None, len));
-        cfgs.push(Cfg::Uniform(len % 4, len));
+        for fl in 0..4 {
+            cfgs.push(Cfg::Uniform(fl, len));
+        }
     }
     for fl in 0..4 {
         for len in [70usize, 130] {
